@@ -69,13 +69,67 @@ func reconfCases(r *vh.Rng, thorough bool) []*Case {
 }
 
 type reconfResult struct {
-	packs     []string
-	modelLine string
-	finds     []finding
-	nPack     int
+	packs        []string
+	modelLine    string
+	finds        []finding
+	nPack        int
+	inconclusive bool // the upper time bound was missed while the machine was demonstrably starved
 }
 
+// lagProbe measures how late this process's timers fire while a case runs: a 5 ms sleep that takes
+// 5 ms + x shows the scheduling lag x.  An upper time bound is only held against the sender when the
+// probe shows that the machine was not starved.
+type lagProbe struct {
+	stop chan struct{}
+	done chan struct{}
+	max  time.Duration
+}
+
+func startLagProbe() *lagProbe {
+	p := &lagProbe{stop: make(chan struct{}), done: make(chan struct{})}
+	go func() {
+		defer close(p.done)
+		for {
+			select {
+			case <-p.stop:
+				return
+			default:
+			}
+			t := time.Now()
+			time.Sleep(5 * time.Millisecond)
+			if lag := time.Since(t) - 5*time.Millisecond; lag > p.max {
+				p.max = lag
+			}
+		}
+	}()
+	return p
+}
+
+func (p *lagProbe) finish() time.Duration {
+	close(p.stop)
+	<-p.done
+	return p.max
+}
+
+const quietLag = 150 * time.Millisecond
+
+// runReconf repeats a case whose upper time bound was missed under load (a repetition cannot mask a
+// real failure: on a quiet run the bound is held against the sender; the logical clauses — exactly
+// once, settings applied, lower bound — are judged on every run)
 func runReconf(c *Case, e *evalCtx) *reconfResult {
+	var r *reconfResult
+	for attempt := 0; attempt < 3; attempt++ {
+		ee := newEvalCtx(c.allSpecs())
+		r = runReconfOnce(c, ee)
+		if !r.inconclusive || len(r.finds) > 0 {
+			break
+		}
+		time.Sleep(time.Duration(200*(attempt+1)) * time.Millisecond)
+	}
+	return r
+}
+
+func runReconfOnce(c *Case, e *evalCtx) *reconfResult {
 	rc := c.Reconf
 	res := &reconfResult{}
 	cl := &recClient{mode: c.Client}
@@ -83,6 +137,19 @@ func runReconf(c *Case, e *evalCtx) *reconfResult {
 	old := c.Settings
 	nw := Settings{*rc.New.MaxWait, *rc.New.QueueSize, *rc.New.MaxBuf, *rc.New.ZipMin}
 	done := snd.StartForVerif()
+	probe := startLagProbe()
+	lag := time.Duration(-1)
+	quiet := func() bool {
+		if lag < 0 {
+			lag = probe.finish()
+		}
+		return lag < quietLag
+	}
+	defer func() {
+		if lag < 0 {
+			probe.finish()
+		}
+	}()
 	handedCount := func() int {
 		cl.mu.Lock()
 		defer cl.mu.Unlock()
@@ -182,12 +249,20 @@ func runReconf(c *Case, e *evalCtx) *reconfResult {
 					old.MaxWait, nw.MaxWait, el.Milliseconds())
 			}
 			if el > upper {
-				e.prop("ApplyConfig:wait-time-not-in-force", "max_wait_time changed %d -> %d ms on the running sender; the batch added afterwards was flushed by the idle timeout only after %d ms (bound: new waiting time + one poll interval of the old one + %v = %v)",
-					old.MaxWait, nw.MaxWait, el.Milliseconds(), reconfSlack, upper)
+				if quiet() {
+					e.prop("ApplyConfig:wait-time-not-in-force", "max_wait_time changed %d -> %d ms on the running sender; the batch added afterwards was flushed by the idle timeout only after %d ms (bound: new waiting time + one poll interval of the old one + %v = %v; timers of this process were at most %v late meanwhile)",
+						old.MaxWait, nw.MaxWait, el.Milliseconds(), reconfSlack, upper, lag)
+				} else {
+					res.inconclusive = true
+				}
 			}
 		} else if !inTime {
-			e.prop("ApplyConfig:wait-time-not-in-force", "max_wait_time changed %d -> %d ms on the running sender; the batch added afterwards was not handed over within %v (gave up after %d ms)",
-				old.MaxWait, nw.MaxWait, upper, elapsedAtGiveUp.Milliseconds())
+			if quiet() {
+				e.prop("ApplyConfig:wait-time-not-in-force", "max_wait_time changed %d -> %d ms on the running sender; the batch added afterwards was not handed over within %v (gave up after %d ms; timers of this process were at most %v late meanwhile)",
+					old.MaxWait, nw.MaxWait, upper, elapsedAtGiveUp.Milliseconds(), lag)
+			} else {
+				res.inconclusive = true
+			}
 		}
 	}
 	if got := fromVS(snd.SettingsForVerif()); got != nw {
